@@ -72,7 +72,7 @@ def check_module(rep, facts, mod, trait, sfx):
                 it = RecInterp(Evaluator(facts), set(hooks))
                 node = ('ctor', f'{adt}::{vname}', tuple(('payload', vname, i) for i, _ in enumerate(v['fields']))) if v['fields'] else ('ctor', f'{adt}::{vname}')
                 env = {pn[0]: ('opaque',), pn[1]: node, '@assign': {}}
-                it.val(b['body'], env)
+                it.run_body(b, env)
                 table[vname] = [(nm, args) for nm, args in it.calls]
         except (Unanalysable, EvalPanic, IndexError, KeyError) as e:
             table = None
@@ -174,6 +174,55 @@ def check_module(rep, facts, mod, trait, sfx):
     return summary
 
 
+def r6_overrides_recurse(rep, facts):
+    R = rep.rule('C20/R6', 'the visitors of the workspace itself (toml_edit::ser::pretty::Pretty, toml::fmt::DocumentFormatter, ..) keep the walk going: every overridden hook calls '
+                 'the default walker of the same name exactly once whatever the node looks like (0..3 children, every setting of the visitor\'s own flags); a hook that returns '
+                 'early for some nodes leaves everything below them unvisited', floor=6)
+    from .den import RecInterp, Evaluator, Unanalysable, EvalPanic
+    import itertools
+    n = 0
+    for imp in facts.impls:
+        tr = imp.get('trait') or ''
+        if not (tr.endswith('visit_mut::VisitMut') or tr.endswith('visit::Visit')):
+            continue
+        ty = imp.get('self_ty') or '?'
+        adt = facts.adts.get(ty) or {}
+        flags = [f['name'] for v in adt.get('variants', []) for f in v.get('fields', []) if f.get('ty') == 'bool']
+        for it_ in imp['items']:
+            d, name = it_['def'], it_['name']
+            if not name.startswith('visit_') or not facts.has_body(d):
+                continue
+            b = facts.body(d)
+            pn = [p_['name'] for p_ in b.get('params', []) if p_.get('k') == 'p_bind']
+            if len(pn) != 2:
+                continue
+            bad = []
+            try:
+                for n_el in (0, 1, 2, 3):
+                    for vals in itertools.product((False, True), repeat=len(flags)):
+                        it = RecInterp(Evaluator(facts), {'clear', 'set_implicit', 'set_trailing', 'set_trailing_comma', 'set_prefix', 'set_suffix', 'set_dotted', 'fmt', 'make_item', 'make_value'},
+                                       {name, 'take', 'replace'},
+                                       stubs={'len': n_el, 'is_empty': n_el == 0, 'decor_mut': ('opaque',), 'iter_mut': tuple(('item', i) for i in range(n_el)),
+                                              'get_values': tuple((('k', i), ('v', i)) for i in range(n_el)), 'is_value': True, 'is_table': False, 'is_none': False,
+                                              'into_table': ('ctor', 'core::result::Result::Err', (('struct', 'node', {}),)),
+                                              'into_array_of_tables': ('ctor', 'core::result::Result::Err', (('struct', 'node', {}),))})
+                        env = {pn[0]: ('struct', ty, dict(zip(flags, vals))), pn[1]: ('struct', 'node', {}), '@assign': {}}
+                        try:
+                            it.run_body(b, env)
+                        except EvalPanic:
+                            pass
+                        k = sum(1 for nm, _ in it.calls if nm == name)
+                        if k != 1:
+                            bad.append(f'{k} time(s) for a node with {n_el} children and flags {dict(zip(flags, vals))}')
+            except Unanalysable as e:
+                rep.incomplete(R, f'{last_seg(ty)}::{name}', f'cannot evaluate `{d}`: {e}', facts.loc(b))
+                continue
+            n += 1
+            rep.check(R, f'{last_seg(ty)}::{name}', not bad, f'calls the default {name} once for every node shape and flag setting',
+                      f'`{last_seg(ty)}::{name}` calls the default walker {bad[0]}: the nodes below are skipped (or walked twice)' if bad else '', facts.loc(b))
+    rep.check(R, 'count', n >= 5, f'{n} overridden hooks evaluated', f'only {n} overridden visitor hooks found in the workspace')
+
+
 def rules(rep, facts):
     if 'toml_edit' not in facts.crates:
         return
@@ -187,6 +236,12 @@ def rules(rep, facts):
     r2_placeholders(rep, facts, rid='C20/R5', rid3='C20/R5b')
     from .rules_c16 import r2c_iteration_tables
     r2c_iteration_tables(rep, facts, rid='C20/R5c')
+    feats = set(facts.crates.get('toml_edit', {}).get('features', []))
+    if 'serde' in feats:
+        r6_overrides_recurse(rep, facts)
+        from .rules_c07 import r3_promotion
+        r3_promotion(rep, facts)
+        rep.relabel('C07/R3', 'C20/R7', 'a visitor that rewrites nodes on the way leaves alone what it must not touch (values inside values) and restores its own state for the siblings: ')
     rep.assumptions.append('iter()/iter_mut() of Table, InlineTable (TableLike), Array and ArrayOfTables yield every non-placeholder entry in order (C20/R5, R5c decide what they yield on storages with placeholders; Vec / IndexMap iteration order is trusted)')
 
 
